@@ -30,12 +30,15 @@ RULE = ("one kernel call per case over all 13 kernels (12 decimal + divWVW) and 
         "destination equal to a source, overlapping a source the way dec.shl/dec.shr call the shifts, or disjoint, "
         "inside an array with guard words; carries/borrows in and out (runs of B-1 / 0); distinct = different call "
         "text; non-trivial = vector length >= 1 or a scalar kernel")
-EXPLANATION = ("Props/C07.v: for all inputs under each kernel's precondition the Gallina model of every portable Go "
-               "kernel equals the mathematical definition (KernSpec), and the generated assembly programs of the "
-               "kernels listed there, run by the x86 interpreter, return KernSpec's result; the run ties the Go "
-               "model to the `_g` code, the interpreter and the generated programs to the CPU, for every kernel "
-               "(including the ones without a closed assembly theorem), and compares whole-library transcripts of "
-               "the default, decimal_pure_go and math_big_pure_go builds")
+EXPLANATION = ("Props/C07.v: (a) for all lengths, contents and admissible placements the Gallina model of every portable "
+               "Go kernel (12 decimal kernels, divWVW, magic.div on every row of the generated table) equals the "
+               "mathematical definition KernSpec; (b) the programs generated from the assembly source, run by the x86 "
+               "interpreter from arbitrary registers, return KernSpec's result without fault for mul10WW div10WW div10W "
+               "add10VV sub10VV shl10VU shr10VU mulAdd10VWW addMul10VVW div10VWW divWVW (all inputs, all lengths); "
+               "add10VW and sub10VW have no closed assembly theorem.  The run ties the Go model to the `_g` code and the "
+               "interpreter + generated programs to the CPU for every kernel including those two, and compares "
+               "whole-library transcripts of the default, decimal_pure_go and math_big_pure_go builds; "
+               "gen/ConstsCheck.v ties the literals of the hand-written model to the constants extracted from the Go source")
 ASSUMPTIONS = ["kernel preconditions: words below 10^19 (below 2^64 for divWVW), dividend high word below the divisor, "
                "shift below 19, slices of equal length placed as the library places them",
                "amd64, 64-bit words (_W=64, _DW=19)"]
